@@ -1,7 +1,10 @@
 package seq
 
 import (
+	"berty.tech/go-ipfs-log/enc"
+	"berty.tech/go-ipfs-log/io/cbor"
 	"bytes"
+	"crypto/sha256"
 	"encoding/base64"
 	"encoding/hex"
 	"fmt"
@@ -147,8 +150,24 @@ func c18One(p *run.Part, spec entrySpec, wk string) {
 			viol("-", "no-encrypted-field", "an entry with links is stored without the encrypted-links field")
 		}
 	}
-	for _, rk := range []string{"none", "K1", "K2"} {
-		rio := keyedIO(rk)
+	// another codec is derived from the writer's (a second log with another key, configured from the first one's
+	// codec): the writer's codec object must stay what it was; it is used below as the reader "own"
+	if wc, ok := wio.(*cbor.IOCbor); ok && wk != "none" {
+		k := sha256.Sum256([]byte("a third key"))
+		if sk, err := enc.NewSecretbox(k[:]); err == nil {
+			_ = wc.ApplyOptions(&cbor.Options{LinkKey: sk})
+		}
+	}
+	for _, rk := range []string{"none", "K1", "K2", "own"} {
+		var rio iface.IO
+		if rk == "own" {
+			if wk == "none" {
+				continue
+			}
+			rio, rk = wio, wk // the writer's own codec object, judged like any reader holding the writer's key
+		} else {
+			rio = keyedIO(rk)
+		}
 		d, err := entry.FromMultihashWithIO(world.Ctx, st, e.GetHash(), world.IDs[spec.Writer].Provider, rio)
 		p.Add(0, 1, 0, 1)
 		switch {
